@@ -40,5 +40,6 @@ ENVIRONMENT FACTS YOU NEED:
       cd {wt} && LD_LIBRARY_PATH=/root/miniconda/pkgs/icu-73.1-h6a678d5_0/lib /venv/bin/python -m pytest -q -p no:cacheprovider -n 8 --timeout=900
     Expected on the unchanged tree: "10356 passed, 14 skipped, 12 xfailed". With your change the result must be identical (no new failures). If a change makes any existing test fail, discard or refine it.
   - There is no network. Do not install anything.
+  - Never use `git stash` (the stash is shared with other worktrees of the same repository); use `git diff > file`, `git checkout -- .` and `git apply file`.
 
 VERIFY YOURSELF before finishing, for each change: (a) demo passes on the unchanged worktree, (b) demo fails with the change applied, (c) the full test-suite still passes with the change applied. Leave the worktree clean (`git -C {wt} checkout -- .`) when you are done. In your final message list, for each change, the summary, what it needs to manifest, and the commands you ran with their results. If you could only produce one good change, that is fine.""")
